@@ -411,6 +411,9 @@ type Job struct {
 // deadline (results of jobs never started are nil, and the prefix that did run is still a seeded, reproducible
 // mix because the generators interleave their profiles); at least min jobs are always run.
 func RunAll(jobs []Job, n int, budget time.Duration, min int) []*Result {
+	if os.Getenv("D2V_LAY_INPROCESS") == "" {
+		return runIsolated(jobs, n, budget, min)
+	}
 	res := make([]*Result, len(jobs))
 	var wg sync.WaitGroup
 	ch := make(chan int)
@@ -435,7 +438,7 @@ func RunAll(jobs []Job, n int, budget time.Duration, min int) []*Result {
 	return res
 }
 
-// QuickBudget is the wall-time bound of the layout stream (45 s in the quick tier, 15 min in the thorough tier) (a nested diagram costs one engine run
+// QuickBudget is the wall-time bound of the layout stream (70 s in the quick tier, 15 min in the thorough tier) (a nested diagram costs one engine run
 // per special container: 0.1 s dagre / 0.6 s ELK each on an idle core, several times that on a loaded machine).
 func QuickBudget(quick bool) time.Duration {
 	if s := os.Getenv("D2V_LAY_BUDGET_S"); s != "" {
@@ -444,7 +447,7 @@ func QuickBudget(quick bool) time.Duration {
 		}
 	}
 	if quick {
-		return 45 * time.Second
+		return 70 * time.Second
 	}
 	return 15 * time.Minute
 }
@@ -531,4 +534,156 @@ func nearPerimeter(o *d2graph.Object, p *geo.Point) string {
 		}
 	}
 	return "no"
+}
+
+// Features lists the histogram buckets of one run: nesting depth, which special diagrams occur and how they nest,
+// decorations, sizes.  Every bucket is counted once per (program, engine).
+func Features(res *Result) []string {
+	if res == nil || res.Compile != "ok" {
+		return []string{"feat:not-compilable"}
+	}
+	set := map[string]bool{}
+	nObj, nEdge, calls, depth := 0, 0, 0, 0
+	for _, b := range res.Boards {
+		calls += b.CoreCalls
+		if b.Geo == nil {
+			continue
+		}
+		objs, _ := b.Geo["objects"].([]any)
+		edges, _ := b.Geo["edges"].([]any)
+		nObj += len(objs)
+		byID := map[string]M{}
+		for _, x := range objs {
+			o := x.(M)
+			byID[o["id"].(string)] = o
+		}
+		if b.Geo["rootIsSeq"] == true {
+			set["kind:sequence-board"] = true
+		}
+		if b.Geo["rootIsGrid"] == true {
+			set["kind:grid-board"] = true
+		}
+		for _, x := range objs {
+			o := x.(M)
+			switch l := o["level"].(type) {
+			case int:
+				if l > depth {
+					depth = l
+				}
+			case float64:
+				if int(l) > depth {
+					depth = int(l)
+				}
+			}
+			flag := func(k string) bool { v, _ := o[k].(bool); return v }
+			if flag("isGrid") {
+				set["kind:grid"] = true
+			}
+			if flag("isSeq") {
+				set["kind:sequence"] = true
+			}
+			if flag("constNear") {
+				set["kind:constant-near"] = true
+				if flag("container") {
+					set["kind:near-group"] = true
+				}
+			}
+			if flag("3d") {
+				set["deco:3d"] = true
+			}
+			if flag("multiple") {
+				set["deco:multiple"] = true
+			}
+			if _, ok := o["olabel"]; ok {
+				set["deco:outside-label"] = true
+			}
+			if _, ok := o["oicon"]; ok {
+				set["deco:outside-icon"] = true
+			}
+			if flag("seqGroup") {
+				set["seq:group"] = true
+			}
+			if flag("seqNote") && flag("inSeq") {
+				set["seq:note"] = true
+			}
+			// how specials nest: walk the ancestors
+			if flag("isGrid") || flag("isSeq") {
+				self := "grid"
+				if flag("isSeq") {
+					self = "sequence"
+				}
+				p, _ := o["parent"].(string)
+				if p != "" {
+					set["nest:"+self+"-in-container"] = true
+				}
+				for p != "" {
+					po, ok := byID[p]
+					if !ok {
+						break
+					}
+					if v, _ := po["isGrid"].(bool); v {
+						set["nest:"+self+"-in-grid"] = true
+					}
+					if v, _ := po["isSeq"].(bool); v {
+						set["nest:"+self+"-in-sequence"] = true
+					}
+					if v, _ := po["constNear"].(bool); v {
+						set["nest:"+self+"-in-near"] = true
+					}
+					p, _ = po["parent"].(string)
+				}
+			}
+		}
+		for _, x := range edges {
+			e := x.(M)
+			if e["lifeline"] == true {
+				continue
+			}
+			nEdge++
+			if e["src"] == e["dst"] {
+				set["edge:self-loop"] = true
+			}
+			so, do := byID[e["src"].(string)], byID[e["dst"].(string)]
+			if so != nil && do != nil {
+				if so["parent"] != do["parent"] {
+					set["edge:cross-container"] = true
+				}
+				if c, _ := so["container"].(bool); c {
+					set["edge:from-container"] = true
+				}
+				if c, _ := do["container"].(bool); c {
+					set["edge:to-container"] = true
+				}
+			}
+		}
+	}
+	if len(res.Boards) > 1 {
+		set["kind:multi-board"] = true
+	}
+	bucket := func(name string, n int, cuts ...int) string {
+		lo := 0
+		for _, c := range cuts {
+			if n <= c {
+				return fmt.Sprintf("%s:%d-%d", name, lo, c)
+			}
+			lo = c + 1
+		}
+		return fmt.Sprintf("%s:%d+", name, lo)
+	}
+	out := []string{bucket("depth", depth, 1, 2, 3), bucket("objects", nObj, 5, 15, 40), bucket("edges", nEdge, 0, 5, 15),
+		bucket("core-layout-calls", calls, 0, 1, 3)}
+	for k := range set {
+		out = append(out, k)
+	}
+	sort.Strings(out)
+	return out
+}
+
+// Engines picks the engines program number i runs under: dagre always, ELK (6x dearer: a 1.5 MB script is parsed per
+// core-layout call) for every k-th program — both engines see every profile, dagre sees k times as many programs.
+func Engines(i, k int) []string {
+	if k <= 1 || i%k == 0 {
+		return []string{"dagre", "elk"}
+	}
+	return []string{"dagre"}
 }
